@@ -23,9 +23,14 @@
 (*     b0    first line of the body (for, while, with; if: the true arm);   *)
 (*     body  the lines of a `for` / `with` body                             *)
 (*     cc    <<>> or <<b>>: the condition is reported to be the constant b  *)
+(*     frame TRUE when every call in the statement goes to a function the  *)
+(*           purity analysis calls pure (and it is no store xs[i] = e):    *)
+(*           such a statement changes only the names it binds              *)
 (*     ret   <<>> or <<[pe, fmt]>> facts about the returned expression      *)
 (*   params  facts about the parameters;  alias  pairs of names that may   *)
-(*   share a list;  names  the statement-level names                       *)
+(*   share a list;  names  the statement-level names;  pure  <<>> or <<b>>: *)
+(*   what the purity analysis says about the function (a run records in    *)
+(*   `mut` whether a list handed in by the caller was changed)              *)
 (*                                                                         *)
 (* The specification keeps the abstract state the facts speak about: the   *)
 (* current environment and, for every name, the line of its last           *)
@@ -155,7 +160,12 @@ Step ==
            prs == UNION {UNION {{<<same[c][a1], same[c][b1]>> : b1 \in (a1 + 1)..Len(same[c])} : a1 \in 1..Len(same[c])} : c \in 1..Len(same)}
            al == {<<"same-list-not-reported-as-aliased", p[1] \o "," \o p[2]>> :
                     p \in {p \in prs : p[1] \in SeqSet(P.names) /\ p[2] \in SeqSet(P.names) /\ ~Reported(p[1], p[2])}}
-           F == DefFails(defs, e) \cup CondFails(lp, ln) \cup UseFails(ln, ds, lp) \cup al
+           \* frame condition: a statement whose calls are all reported pure changes only the names it binds
+           touched == {n \in DOMAIN Ev(i + 1).v : n \in SeqSet(P.names) /\ n \in DOMAIN env}
+           fr == IF Known(lp) /\ LineRec(lp).frame
+                 THEN {<<"function-reported-pure-writes-a-list-of-its-caller", n>> : n \in touched \ {defs[j].n : j \in 1..Len(defs)}}
+                 ELSE {}
+           F == DefFails(defs, e) \cup CondFails(lp, ln) \cup UseFails(ln, ds, lp) \cup al \cup fr
        IN  /\ Report(F)
            /\ env' = e /\ dsite' = ds /\ bad' = bad + Cardinality(F)
     /\ i' = i + 1 /\ r' = r
@@ -169,7 +179,9 @@ Finish ==
                  THEN {<<"expression-reported-constant-evaluates-differently", "returned value">>} ELSE {})
                 \cup (IF Len(rf.fmt) = 1 /\ ~MemDV(Run.ret[1], rf.fmt[1])
                       THEN {<<"inferred-format-misses-value", "returned value">>} ELSE {})
-       IN  /\ Report(F) /\ bad' = bad + Cardinality(F)
+           G == IF Len(P.pure) = 1 /\ P.pure[1] /\ Run.mut
+                THEN {<<"function-reported-pure-writes-a-list-of-its-caller", P.name>>} ELSE {}
+       IN  /\ Report(F \cup G) /\ bad' = bad + Cardinality(F \cup G)
     /\ r' = r + 1 /\ i' = 0 /\ env' = <<>> /\ dsite' = <<>>
 
 Next == First \/ Step \/ Finish
